@@ -28,7 +28,7 @@ pub enum Op {
 impl Op {
     pub fn coq(&self) -> String {
         match self {
-            Op::Session { sets, refresh } => format!("(OSession [{}] {})", sets.iter().map(|(v, x)| format!("({v}, ({x}))")).collect::<Vec<_>>().join("; "), refresh),
+            Op::Session { sets, refresh } => format!("(OSession [{}] {})", sets.iter().map(|(v, x)| format!("({v}%N, ({x}))")).collect::<Vec<_>>().join("; "), refresh),
             Op::Query(n) => format!("(OQuery {})", n.coq()),
             Op::SetWorld(i, v) => format!("(OSetWorld {i} ({v}))"),
             Op::Restart => "ORestart".into(),
@@ -150,7 +150,7 @@ impl OpResult {
             Outcome::World => "RUnit".into(),
             Outcome::Restarted => "RUnit".into(),
         };
-        let d = match self.dirtied { Some(d) => format!("(Some {d})"), None => "None".into() };
+        let d = match self.dirtied { Some(d) => format!("(Some {d}%N)"), None => "None".into() };
         format!("(mkRes {out} [{}] {d})", execs.join("; "))
     }
 }
